@@ -884,3 +884,37 @@ def d11_iter_any(f):
         f._lost('D11 .iter().any(..)')
     f.log.rule('D11', f, '%d .iter().any(closure) -> flag loop' % n)
     return f
+
+
+def d13_retain(f, recv, elem_ty, captures, fname='verif_retain_0', call_prefix=''):
+    """D13: `RECV.retain(|x| BODY);` where BODY mutates captured state (FnMut) ->
+         let verif_all = shim_take_all(&mut RECV);
+         for x in verif_all.into_iter() { if FNAME(&x, CAPTURES) { RECV.push(x); } }
+    and BODY is lifted verbatim into `fn FNAME(x: &T, CAPTURES: ..) -> bool BODY` (returned as text).
+    Vec::retain visits each element exactly once in the original order and keeps those for which the closure returns true
+    (std documentation).  captures: [(name, type, call expression)]."""
+    t = f.text
+    mask = code_mask(t)
+    m = None
+    for x in re.finditer(re.escape(recv) + r'\.retain\(\|(\w+)\|\s*\{', t):
+        if mask[x.start()]:
+            m = x
+            break
+    if m is None:
+        f._lost('D13 %s.retain(|x| {..})' % recv)
+    bo = m.end() - 1
+    bc = match_brace(t, mask, bo)
+    tail = re.match(r'\s*\)\s*;', t[bc + 1:])
+    if not tail:
+        f._lost('D13: retain call not in statement position')
+    body = t[bo:bc + 1]
+    var = m.group(1)
+    ind = re.search(r'[ \t]*$', t[:m.start()]).group(0)
+    call_args = ''.join(', ' + c[2] for c in captures)
+    new = ('let verif_all = shim_take_all(&mut %s);\n%sfor %s in verif_all.into_iter() {\n%s    if %s(&%s%s) {\n%s        %s.push(%s);\n%s    }\n%s}'
+           % (recv, ind, var, ind, call_prefix + fname, var, call_args, ind, recv, var, ind, ind))
+    f.text = t[:m.start()] + new + t[bc + 1 + tail.end():]
+    params = ''.join(', %s: %s' % (c[0], c[1]) for c in captures)
+    lifted = 'fn %s(%s: &%s%s) -> bool %s' % (fname, var, elem_ty, params, body)
+    f.log.rule('D13', f, 'retain(FnMut closure) -> take-all + push loop, closure body lifted verbatim into %s' % fname)
+    return lifted
